@@ -6,6 +6,7 @@ package tree
 
 import (
 	"bytes"
+	"cmp"
 	_ "embed"
 	"fmt"
 	"go/parser"
@@ -647,8 +648,13 @@ func (t *Tree) Compile(file string, args []string, out io.Writer) (err error) {
 			}
 		}
 	}
-	/* sort imports to satisfy gofmt */
-	slices.Sort(t.Imports)
+	/* sort imports by path, then by alias, to satisfy gofmt, and drop duplicates */
+	slices.SortFunc(t.Imports, func(a, b string) int {
+		aPath, aAlias, _ := strings.Cut(a, "=")
+		bPath, bAlias, _ := strings.Cut(b, "=")
+		return cmp.Or(strings.Compare(aPath, bPath), strings.Compare(aAlias, bAlias))
+	})
+	t.Imports = slices.Compact(t.Imports)
 
 	/* second pass */
 	for _, n := range slices.Collect(t.Iterator()) {
